@@ -100,6 +100,13 @@ type mut struct {
 	sig         []byte // RAW signature (without prefix)
 }
 
+type shapeCase struct {
+	what string
+	msg  []byte
+	raw  []byte
+	lead int // number of leading zero octets
+}
+
 type inst struct {
 	scheme, cfg string
 	signer      tink.Signer
@@ -121,6 +128,9 @@ type inst struct {
 	flipLens   []int
 	flipStride int
 	light      bool // reduced treatment (quick: large curves; thorough: the sweep over the non-first key ids): 3 messages, one catalogue length, edge-byte flips only
+	// shapeCases: (message, valid raw signature of key A over signed(message)) pairs of special shapes
+	// (fixed-width RSA signatures with one / two leading zero octets); nil if the scheme has none.
+	shapeCases func() []shapeCase
 	// classify may rename the finding key of a mismatch (PSS salt length 0)
 	classify func(key string, tinkAccepts bool, raw, data []byte) string
 	tally    map[string]int
@@ -403,6 +413,54 @@ func exercise(x *h.X, in *inst) {
 			in.cmp(x, "msg", full, d, "valid signature presented for a modified message")
 		}
 	}
+	// (3) special signature shapes
+	shapeStage(x, in)
+}
+
+// shapeStage: fixed-width signatures that begin with zero octets. The genuine signature must verify; the
+// forms with the zero octets stripped (k-1 / k-2 octets), with an extra 00 prepended (k+1 octets) and the usual
+// prefix edits of those must be decided exactly like the strict reference verifier (len(sig) == k) decides.
+// (The "s+n" equivalent never fits into k octets for these moduli: not applicable.)
+func shapeStage(x *h.X, in *inst) {
+	if in.shapeCases == nil {
+		return
+	}
+	pre := in.prefix
+	for _, sc := range in.shapeCases() {
+		full := cat(pre, sc.raw)
+		if !in.model(full, sc.msg) {
+			x.Fail("harness-refsig", "%s: harness error: %s rejected by the reference verifier", in.cfg, sc.what)
+			return
+		}
+		in.tally[in.scheme+fmt.Sprintf("/shape-lead%d/found", sc.lead)]++
+		in.cmp(x, "shape-valid", full, sc.msg, "genuine "+sc.what)
+		var forms []mut
+		for z := 1; z <= sc.lead; z++ {
+			forms = append(forms, mut{"shape-stripped", fmt.Sprintf("%s with %d leading zero octet(s) stripped (k-%d octets)", sc.what, z, z), sc.raw[z:]})
+		}
+		forms = append(forms, mut{"shape-repadded", sc.what + " with one extra 00 prepended (k+1 octets)", cat([]byte{0}, sc.raw)})
+		forms = append(forms, mut{"shape-repadded", sc.what + " with two extra 00 prepended (k+2 octets)", cat([]byte{0, 0}, sc.raw)})
+		forms = append(forms, mut{"shape-stripped", sc.what + " stripped and 00 appended (k octets, shifted)", cat(sc.raw[1:], []byte{0})})
+		forms = append(forms, mut{"shape-stripped", sc.what + " minimal-length integer", bytes.TrimLeft(sc.raw, "\x00")})
+		for _, f := range forms {
+			in.cmp(x, f.class, cat(pre, f.sig), sc.msg, f.what)
+			for _, op := range otherPrefixes(in.variant, in.id)[:3] {
+				in.cmp(x, "prefix", cat(op, f.sig), sc.msg, fmt.Sprintf("%s under foreign prefix %x", f.what, op))
+			}
+			if len(pre) > 0 {
+				in.cmp(x, "prefix", f.sig, sc.msg, f.what+", prefix removed")
+				in.cmp(x, "prefix", cat(pre, pre, f.sig), sc.msg, f.what+", prefix doubled")
+			}
+		}
+		for _, m := range in.rawMuts(in.signed(sc.msg), sc.raw, 0) {
+			in.cmp(x, m.class, cat(pre, m.sig), sc.msg, m.what+" (on "+sc.what+")")
+		}
+		for cut := 0; cut < len(full); cut++ {
+			in.cmp(x, "trunc", full[:cut], sc.msg, fmt.Sprintf("%s truncated to %d bytes", sc.what, cut))
+		}
+		in.cmp(x, "msg", full, append(bytes.Clone(sc.msg), 0), sc.what+" presented for message||00")
+		in.cmpWith(x, in.verifierB, in.modelB, "other-key", full, sc.msg, sc.what+" presented to the verifier of key B")
+	}
 }
 
 // buildHandles returns Signer/Verifier through signature.NewSigner/NewVerifier for priv, plus a verifier for pubB.
@@ -533,22 +591,28 @@ func ecSig0(c *ref.ECCurve, kidx int, k *ecKey, digest []byte) [2]*big.Int {
 }
 
 // ecShapes: deterministic valid (r, s) pairs: [0] = ecSig0; then, as far as found, pairs whose r and s
-// (a) both need a DER 00 pad, (b) both need none, (c) r shorter than the field size, (d) s shorter.
+// (a) both need a DER 00 pad, (b) both need none, (c) r one octet shorter than the field size, (d) s one octet
+// shorter, and - only if the bounded nonce walk meets them - (e)/(f) r / s two octets shorter.
 func ecShapes(c *ref.ECCurve, kidx int, k *ecKey, digest []byte) [][2]*big.Int {
 	return memoize(fmt.Sprintf("ecs|%s|%d|%x", c.Name, kidx, digest), func() any {
 		out := [][2]*big.Int{ecSig0(c, kidx, k, digest)}
 		pad := func(v *big.Int) bool { b := v.Bytes(); return b[0]&0x80 != 0 }
 		short := func(v *big.Int) bool { return len(v.Bytes()) < c.Size }
-		found := [4]bool{}
+		short2 := func(v *big.Int) bool { return len(v.Bytes()) < c.Size-1 }
+		found := [6]bool{}
 		if c.Size == 66 {
 			found[0] = true // P-521: a full-length value (521 bits) never needs a pad
 		}
 		ref.ECDSASignWalk(c, k.d, digest, ref.ECDSANonce(c, k.d, digest, 1000), 6000, func(r, s *big.Int) bool {
 			which := -1
 			switch {
-			case short(r) && !found[2]:
+			case short2(r) && !found[4]: // two leading zero octets in the fixed-width form (opportunistic)
+				which = 4
+			case short2(s) && !short(r) && !found[5]:
+				which = 5
+			case short(r) && !short2(r) && !found[2]:
 				which = 2
-			case short(s) && !short(r) && !found[3]:
+			case short(s) && !short2(s) && !short(r) && !found[3]:
 				which = 3
 			case pad(r) && pad(s) && !short(r) && !short(s) && !found[0]:
 				which = 0
@@ -559,7 +623,11 @@ func ecShapes(c *ref.ECCurve, kidx int, k *ecKey, digest []byte) [][2]*big.Int {
 				found[which] = true
 				out = append(out, [2]*big.Int{r, s})
 			}
-			return !(found[0] && found[1] && found[2] && found[3])
+			base := found[0] && found[1] && found[2] && found[3]
+			if h.IsThorough() {
+				return !(base && found[4] && found[5]) // keep walking (bounded) for the two-zero shapes
+			}
+			return !base
 		})
 		return out
 	}).([][2]*big.Int)
@@ -698,6 +766,12 @@ func p1363Muts(c *ref.ECCurve, r, s *big.Int) []mut {
 	add("r, s each minus the first byte", cat(rb[1:], sbb[1:]))
 	add("r, s each minus the last byte", cat(rb[:sz-1], sbb[:sz-1]))
 	add("r minus first byte", cat(rb[1:], sbb))
+	add("s minus first byte", cat(rb, sbb[1:]))
+	add("r minus first two bytes", cat(rb[2:], sbb))
+	add("s minus first two bytes", cat(rb, sbb[2:]))
+	add("r, s each minus the first two bytes", cat(rb[2:], sbb[2:]))
+	add("minimal-length r || fixed-width s", cat(r.Bytes(), sbb))
+	add("fixed-width r || minimal-length s", cat(rb, s.Bytes()))
 	add("minimal-length r || s", cat(r.Bytes(), s.Bytes()))
 	for _, osz := range []int{32, 48, 66, 28, 33, 65, 67} {
 		if osz == sz {
@@ -1174,7 +1248,7 @@ func (k *rsaKey) signEM(em []byte) []byte {
 		return nil
 	}
 	hsh := sha256.Sum256(em)
-	r := memoize(fmt.Sprintf("rsasp|%d|%d|%x", k.bits, k.idx, hsh), func() any { return ref.RSASignEM(k.pub, k.d, em) })
+	r := memoize(fmt.Sprintf("rsasp|%d|%d|%x", k.bits, k.idx, hsh), func() any { return ref.RSASignEMCRT(k.pub, k.d, k.p, k.q, em) })
 	if r == nil {
 		return nil
 	}
@@ -1543,6 +1617,49 @@ func rsaSection(pss bool) func(x *h.X) {
 				out = append(out, pkcs1Crafted(kA, hash, data)...)
 			}
 			return out
+		}
+		legacy := v == ref.Legacy
+		in.shapeCases = func() []shapeCase {
+			return memoize(fmt.Sprintf("rsashape|%s|%d|%s|%d|%v|%v", scheme, bits, hash, sLen, legacy, x.Thorough()), func() any {
+				// messages "shape-search-<i>": the first whose reference signature starts with one zero octet, and
+				// (bounded search) the first with two. quick: stop at the first hit; thorough: keep looking for a
+				// two-zero signature up to the bound.
+				bound := 0
+				if x.Thorough() {
+					bound = 600
+					if !pss {
+						bound = 3000
+					}
+					if bits > 2048 {
+						bound /= 3
+					}
+				}
+				var one, two *shapeCase
+				for i := 0; i < 4000 && (one == nil || (two == nil && i < bound)); i++ {
+					m := []byte(fmt.Sprintf("shape-search-%d", i))
+					d := m
+					if legacy {
+						d = append(bytes.Clone(m), 0)
+					}
+					raw := sign(kA, d)
+					if raw[0] != 0 {
+						continue
+					}
+					if raw[1] == 0 && two == nil {
+						two = &shapeCase{fmt.Sprintf("signature with two leading zero octets (message %q)", m), m, raw, 2}
+					} else if one == nil {
+						one = &shapeCase{fmt.Sprintf("signature with a leading zero octet (message %q)", m), m, raw, 1}
+					}
+				}
+				var out []shapeCase
+				if one != nil {
+					out = append(out, *one)
+				}
+				if two != nil {
+					out = append(out, *two)
+				}
+				return out
+			}).([]shapeCase)
 		}
 		if pss && sLen == 0 {
 			// KNOWN DEFECT classification: with SaltLengthBytes = 0 tink hands rsa.PSSOptions{SaltLength: 0} =
